@@ -1,0 +1,55 @@
+//go:build verif
+
+// Contracts checked by /verif/gowp. This file contains comments only and is compiled only
+// with -tags verif.
+
+package manager
+
+//@ func (*manager.Reconciler).Reconcile
+//@ props C14
+//@ sweep
+//@ let $p = result field:manager.Reconciler.newPackage
+//@ let $revs = result (v1.PackageRevisionList).GetRevisions
+//@ let $new = result field:manager.Reconciler.newPackageRevision
+//@ loop range revisions
+//@   invariant [C14:max] 0 <= maxRevision && forall j :: 0 <= j && j < done ==> $revs[j].GetRevision() <= maxRevision
+//@   invariant [C14:oldest] (oldestRevisionIndex == 0 - 1 && oldestRevision == MaxInt64
+//@            && forall j :: 0 <= j && j < done ==> $revs[j].GetName() == $p.GetCurrentRevision())
+//@        || (0 <= oldestRevisionIndex && oldestRevisionIndex < done && oldestRevision == $revs[oldestRevisionIndex].GetRevision()
+//@            && $revs[oldestRevisionIndex].GetName() != $p.GetCurrentRevision()
+//@            && forall j :: 0 <= j && j < done && $revs[j].GetName() != $p.GetCurrentRevision() ==> oldestRevision <= $revs[j].GetRevision())
+//@   invariant [C14:pr-current-or-new] pr == $new || pr.GetName() == $p.GetCurrentRevision()
+//@   invariant [C14:others-inactive] forall j :: 0 <= j && j < done && $revs[j].GetName() != $p.GetCurrentRevision()
+//@        ==> $revs[j].GetDesiredState() != "Active"
+//@ site (client.Writer).Delete(_, _, $victim)
+//@   witness n = len($revs)
+//@   witness nolimit = $p.GetRevisionHistoryLimit() == nil
+//@   witness limit = *$p.GetRevisionHistoryLimit()
+//@   witness rev[j<8] = $revs[j].GetRevision()
+//@   witness cur[j<8] = $revs[j].GetName() == $p.GetCurrentRevision()
+//@   witness active[j<8] = $revs[j].GetDesiredState() == "Active"
+//@   assert [C14:gc-limit] $p.GetRevisionHistoryLimit() != nil && *$p.GetRevisionHistoryLimit() != 0
+//@        && len($revs) > *$p.GetRevisionHistoryLimit() + 1
+//@   assert [C14:gc-oldest] $victim.GetName() != $p.GetCurrentRevision() ==>
+//@        forall j :: 0 <= j && j < len($revs) && $revs[j].GetName() != $p.GetCurrentRevision()
+//@           ==> as($victim, v1.PackageRevision).GetRevision() <= $revs[j].GetRevision()
+//@   assert [C14:gc-not-current] $victim.GetName() != $p.GetCurrentRevision()
+//@ site (resource.Applicator).Apply(_, _, $o, $opts...)
+//@   witness n = len($revs)
+//@   witness nolimit = $p.GetRevisionHistoryLimit() == nil
+//@   witness limit = *$p.GetRevisionHistoryLimit()
+//@   witness rev[j<8] = $revs[j].GetRevision()
+//@   witness cur[j<8] = $revs[j].GetName() == $p.GetCurrentRevision()
+//@   witness active[j<8] = $revs[j].GetDesiredState() == "Active"
+//@   assert [C14,C02:controllable] contains($opts, resource.MustBeControllableBy($p.GetUID()))
+//@ site (resource.Applicator).Apply(_, _, $o, $opts...) as Apply-current
+//@   where $o.GetName() == $p.GetCurrentRevision()
+//@   witness n = len($revs)
+//@   witness nolimit = $p.GetRevisionHistoryLimit() == nil
+//@   witness limit = *$p.GetRevisionHistoryLimit()
+//@   witness rev[j<8] = $revs[j].GetRevision()
+//@   witness cur[j<8] = $revs[j].GetName() == $p.GetCurrentRevision()
+//@   witness active[j<8] = $revs[j].GetDesiredState() == "Active"
+//@   assert [C14:single-active] forall j :: 0 <= j && j < len($revs) && $revs[j].GetName() != $p.GetCurrentRevision()
+//@        ==> $revs[j].GetDesiredState() != "Active"
+//@   assert [C14:numbered-last] forall j :: 0 <= j && j < len($revs) ==> as($o, v1.PackageRevision).GetRevision() >= $revs[j].GetRevision()
